@@ -236,7 +236,12 @@ def dss_sign_case(kd, mode, enc, hn, msg, tape, acc):
             return None
         r, s = ref_sign(kd, digest, k)
     if out[0] in ("ValueError", "TypeError"):
-        acc.observe("DSS sign refuses (%s: %s): %s %s/%s/%s" % (out[0], out[1], A, kd["name"], MODE[mode], hn))
+        if mode == "det":
+            acc.violation("C04/dss/%s/sign-refuses-a-defined-signature" % A,
+                          pre + ": sign() raised %s (%s) although RFC 6979 defines the signature (r=%s, s=%s)"
+                          % (out[0], out[1], short(r), short(s)), case)
+        else:
+            acc.observe("DSS sign refuses (%s: %s): %s %s/%s/%s" % (out[0], out[1], A, kd["name"], MODE[mode], hn))
         return None
     if out[0] != "accept":
         acc.violation("C04/dss/%s/sign-raises/%s@%s" % (A, out[0], exc_site(out[1])), pre + ": sign raised %s: %s" % (out[0], out[1]), case)
